@@ -1,6 +1,12 @@
 """Per-property configuration of the /verif checks (read by ./check)."""
 
 COMPONENTS = {
+    "incremental": {
+        "real": ["experimental/incremental Executor, Task, Resolve, Run, Evict (executor.go, task.go)", "golang.org/x/sync/semaphore",
+                 "sync.Map, sync.RWMutex, context, Go runtime"],
+        "stub": ["Query implementations (generated graph queries with counters, panics)", "versioned input store", "goroutine scheduler (seeded, serialising)",
+                 "model of Executor.dirty (eviction is scheduled only when no Run is active; validated with TryLock probes)"],
+    },
     "compile": {
         "real": ["protocompile.Compiler and executor (compiler.go)", "parser", "linker incl. linker.Symbols", "options",
                  "sourceinfo", "reporter.Handler", "golang.org/x/sync/semaphore", "context", "protobuf-go", "Go runtime and sync"],
@@ -67,6 +73,16 @@ PROPS = {
         assumptions=_ASSUME_B + ["source info is compared only for files whose supplied form carries an AST",
                                  "mutation of supplied objects is decided by before/after deterministic encodings (ASTs are not snapshotted)"],
     ),
+    "C33": dict(
+        test="TestC33", engine="B", level="exploration", components="incremental",
+        quick_checks=1500, thorough_checks=60000, thorough_timeout=7200,
+        rule="a case = random DAG on 2-7 integer-keyed queries (each resolves its dependencies in generated groups of sequential/parallel "
+             "Resolve calls and hashes key, versioned input and dependency values) x 1-3 concurrent clients each issuing 1-4 operations "
+             "from {Run(roots), Evict(keys), EvictWithCleanup(keys, bump their inputs)} x parallelism 1-4 x scheduler tape/disabled "
+             "hooks; distinct = distinct (graph, histories, trace hash); non-trivial = the history contains at least one Run and one eviction",
+        assumptions=_ASSUME_B + ["inputs change only inside the exclusive cleanup of EvictWithCleanup, for exactly the evicted keys (the documented usage)",
+                                 "an eviction reaches Executor.dirty.Lock only when no Run is active (a goroutine blocked on a mutex is invisible to synctest); TryLock probes inside Execute and cleanup check that the lock is really held"],
+    ),
 }
 
 _PURE = "pure function of its input (no schedule, clock, fault or interleaving can change the answer): not a deterministic-simulation target; see DESIGN.md section 4"
@@ -78,9 +94,18 @@ NOT_APPLICABLE = {
     "C39": _PURE, "C40": _PURE + " (histories over a single-threaded structure are just inputs; nothing to inject)", "C41": _PURE,
 }
 _P = "simulation applies (DESIGN.md section 3) but the check is still under construction in this round; not claimed until it runs"
-PENDING = {k: _P for k in ["C16", "C17", "C33", "C34", "C35", "C36", "C38"]}
+PENDING = {k: _P for k in ["C16", "C17", "C34", "C35", "C36", "C38"]}
 
 MANIFEST_TEXT = {
+    "C33": dict(
+        technique="deterministic simulation: seeded histories of concurrent Run/Evict clients x seeded schedules (engine B) against a pure recomputation model with execution counters",
+        design_ref="DESIGN.md 3.8",
+        level_text="Seeded exploration of interleavings of concurrent Run and Evict/EvictWithCleanup clients on the real executor "
+                   "(hooks at leader election, done publication, semaphore hand-off, join, eviction lock); operation-by-operation "
+                   "oracle: returned values equal a pure recomputation on the input snapshot, no query executes twice between "
+                   "evictions, an evicted key and exactly its dependents are recomputed, Changed is true exactly for results computed by the observing run.",
+        level_note="Trusted: harness scheduler, synctest quiescence, the recomputation model. The eviction lock is modelled (see assumptions).",
+    ),
     "C08": dict(
         technique="deterministic simulation: reporter policies (abort at k / never) as injected faults x seeded schedules (engine B)",
         design_ref="DESIGN.md 3.4",
